@@ -115,7 +115,9 @@ def tmp_worktree(repo: str | Path = ".", ref: str = "HEAD") -> Iterator[Path]:
     """
     assert_git_repo(repo)
     repo_name = Path(repo).resolve().name
-    normref = _normalize(ref)  # Branch names can contain slashes.
+    # Branch names can contain slashes. A reference made of special characters only (`@`) normalizes
+    # to an empty string: fall back to a fixed name so that the checkout stays a sub-directory.
+    normref = _normalize(ref) or "ref"
     with TemporaryDirectory(prefix=f"{_WORKTREE_PREFIX}{repo_name}-{normref}-") as tmp_dir:
         location = os.path.join(tmp_dir, normref)  # noqa: PTH118
         tmp_branch = f"griffe-{normref}"  # Temporary branch name must not already exist.
